@@ -245,6 +245,16 @@ def handle : List String → String
     | some [a], some r, some n, some evs, some sz => runCli a r n evs sz hops
     | some [], some r, some n, some evs, some sz => runCli [] r n evs sz hops
     | _, _, _, _, _ => "bad-op"
+  | ["sbuf", signer, n] =>
+    -- lengths-only form of `bufferInput` (Relic.Props.C11.buffering_lengths); `inf` = a stream that never ends
+    let max? : Option Nat := if signer = "appmanifest" then some appmanifestMax else if signer = "cat" then some catMax else none
+    match max? with
+    | some max =>
+      let len? : Option Nat := if n = "inf" then some (max + 2) else n.toNat?
+      match len? with
+      | some len => s!"ok held={min (max + 1) len} res={if max < len then "toolarge" else "parser"}"
+      | none => "bad-op"
+    | none => "bad-op"
   | ["bomb", _wc, n] =>
     -- Relic.Props.C11.decompress_unbounded: the handler reads every decoded byte, whatever their number
     match n.toNat? with
